@@ -76,6 +76,15 @@ def _items():
             '#[verifier::external_body]\n'
             'pub fn vfn_%s(x: &%s) -> (r: Result<(), MyErr>) ensures r == SPEC_VFN_%s(*x) { unimplemented!() }\n'
             % (T, t, t, t, T))
+    # user constants whose NAMES coincide with names a generator might use itself, and user modules with MAX / MIN
+    add('USER_MAX_U8', 'pub const MAX: u8 = 200;\n', 'pub const MAX: u8 = 200;\n')
+    add('USER_MIN_I16', 'pub const MIN: i16 = -100;\n', 'pub const MIN: i16 = -100;\n')
+    for t in NUM_TYPES:
+        if t in FLOAT_TYPES:
+            add('limits_%s' % t, 'pub mod limits_%s { pub const MAX: %s = 100.5; pub const MIN: %s = -100.5; }\n' % (t, t, t), '')
+        else:
+            lo = '-100' if t[0] == 'i' else '5'
+            add('limits_%s' % t, 'pub mod limits_%s { pub const MAX: %s = 100; pub const MIN: %s = %s; }\n' % (t, t, t, lo), '')
     add('MyErr',
         '#[derive(Debug, Clone, Copy, PartialEq, Eq)]\npub enum MyErr { Bad, Worse }\n'
         'impl ::core::fmt::Display for MyErr { fn fmt(&self, f: &mut ::core::fmt::Formatter<\'_>) -> ::core::fmt::Result { write!(f, "my err") } }\n'
